@@ -825,6 +825,7 @@ pub mod loopfree {
         }
     }
 
+    #[derive(Default)]
     struct LoopActor;
     #[cfg_attr(feature = "async-trait", ractor::async_trait)]
     impl Actor for LoopActor {
@@ -846,6 +847,9 @@ pub mod loopfree {
         pub senders: Vec<Vec<(u16, u16)>>,
         pub drain_spin: u16,
         pub rounds: u8,
+        /// the actor is a thread-local one on a real `ThreadLocalActorSpawner` thread
+        #[serde(default)]
+        pub tl: bool,
     }
 
     pub struct C07LoopFree;
@@ -854,10 +858,16 @@ pub mod loopfree {
         let handled: Arc<Mutex<Vec<u32>>> = Arc::new(Mutex::new(vec![]));
         let (tx, rx) = std::sync::mpsc::channel::<ActorRef<HoldMsg>>();
         let h2 = handled.clone();
+        let tl = case.tl;
         let actor_thread = std::thread::spawn(move || {
             let rt = tokio::runtime::Builder::new_current_thread().enable_time().build().expect("rt");
             rt.block_on(async move {
-                let (actor, handle) = Actor::spawn(None, LoopActor, h2).await.expect("spawn");
+                let (actor, handle) = if tl {
+                    let sp = ractor::thread_local::ThreadLocalActorSpawner::new();
+                    <LoopActor as ractor::thread_local::ThreadLocalActor>::spawn(None, h2, sp).await.expect("spawn")
+                } else {
+                    Actor::spawn(None, LoopActor, h2).await.expect("spawn")
+                };
                 let _ = tx.send(actor);
                 // the actor must stop by itself once drained; a generous real-time bound keeps a hang from blocking the shard
                 tokio::time::timeout(std::time::Duration::from_secs(5), handle).await.is_ok()
@@ -928,8 +938,8 @@ pub mod loopfree {
         }
         fn strategy(_tier: Tier) -> BoxedStrategy<LoopCase> {
             let send = (0u16..40, prop_oneof![2 => Just(0u16), 3 => 1u16..200, 1 => 200u16..2000]);
-            (proptest::collection::vec(proptest::collection::vec(send, 1..=4), 1..=3), 0u16..400)
-                .prop_map(|(senders, drain_spin)| LoopCase { senders, drain_spin, rounds: 6 })
+            (proptest::collection::vec(proptest::collection::vec(send, 1..=4), 1..=3), 0u16..400, prop_oneof![2 => Just(false), 1 => Just(true)])
+                .prop_map(|(senders, drain_spin, tl)| LoopCase { senders, drain_spin, rounds: 6, tl })
                 .boxed()
         }
         fn run(case: &LoopCase, _want_trace: bool) -> Outcome {
@@ -944,10 +954,10 @@ pub mod loopfree {
                     }
                 }
             }
-            Outcome::pass(acc >= 1 && rej >= 1, vec![])
+            Outcome::pass(acc >= 1 && rej >= 1, vec![if case.tl { "thread-local".to_string() } else { "send".to_string() }])
         }
         fn rule() -> &'static str {
-            "a real Send actor on its own OS thread, 1-3 sender threads (1-4 sends each, generated busy-wait before the send and inside the message's box_message, i.e. between admission and enqueue) and a drainer thread released from a barrier, 6 rounds per case; oracle on the observed history: every send that returned Ok is handled exactly once, a refused one never, the actor stops by itself (a 5 s wall-clock bound on that is not judged); non-trivial = sends were both accepted and refused over the rounds"
+            "a real Send actor on its own OS thread (1 case in 3: a thread-local actor on a real ThreadLocalActorSpawner thread), 1-3 sender threads (1-4 sends each, generated busy-wait before the send and inside the message's box_message, i.e. between admission and enqueue) and a drainer thread released from a barrier, 6 rounds per case; oracle on the observed history: every send that returned Ok is handled exactly once, a refused one never, the actor stops by itself (a 5 s wall-clock bound on that is not judged); non-trivial = sends were both accepted and refused over the rounds"
         }
     }
 }
